@@ -386,26 +386,56 @@ def rule_hd_startwin(cx, rep, port):
     p2, k2, v2 = info(f2)
     if not p1 or not p2:
         raise Undecided('star regexes not found', f1)
-    rep.decide(k1 == k2 == ['*', 'a.*', 'b.*'], 'star keys', f1, 'both rewrites know *, a.*, b.*', 'the star rewrites know different star forms: {} vs {}'.format(k1, k2))
-    rep.decide(v1 == ['star_fields', 'record_a', 'record_b'], 'star targets', f1, '* -> star_fields, a.* -> record_a, b.* -> record_b', 'star forms expand to {} (must be star_fields, record_a, record_b)'.format(v1))
+
+    def star_texts(fd):
+        """{star form: text that replaces it}: the dictionary entry for the form, embedded in whatever constant text the function
+        concatenates around the lookup"""
+        dicts = [d for d in ast.walk(fd) if isinstance(d, ast.Dict) and d.keys and all(isinstance(k, ast.Constant) and isinstance(k.value, str) and '*' in k.value for k in d.keys)]
+        if len(dicts) != 1:
+            return None
+        d = dicts[0]
+        aliases = {n.targets[0].id for n in ast.walk(fd) if isinstance(n, ast.Assign) and n.value is d and isinstance(n.targets[0], ast.Name)}
+        lookups = [x for x in ast.walk(fd) if isinstance(x, ast.Subscript) and (x.value is d or (isinstance(x.value, ast.Name) and x.value.id in aliases))]
+        if len(lookups) != 1:
+            return None
+        top = lookups[0]
+        while isinstance(getattr(top, 'parent', None), ast.BinOp) and isinstance(top.parent.op, ast.Add):
+            top = top.parent
+        out = {}
+        for k, v in zip(d.keys, d.values):
+            if not isinstance(v, ast.Constant):
+                return None
+
+            def ev(e):
+                if e is lookups[0]:
+                    return v.value
+                if isinstance(e, ast.Constant) and isinstance(e.value, str):
+                    return e.value
+                if isinstance(e, ast.BinOp) and isinstance(e.op, ast.Add):
+                    l_, r_ = ev(e.left), ev(e.right)
+                    return None if l_ is None or r_ is None else l_ + r_
+                return None
+            t_ = ev(top)
+            if t_ is None:
+                return None
+            out[k.value] = t_
+        return out, top
+    st1, st2 = star_texts(f1), star_texts(f2)
+    if st1 is None or st2 is None:
+        rep.undecided('star expansion form', f1, 'replacement text of the star forms not recognised')
+    else:
+        t1, node1 = st1
+        t2, node2 = st2
+        rep.decide(sorted(t1) == sorted(t2) == ['*', 'a.*', 'b.*'], 'star keys', f1, 'both rewrites know *, a.*, b.*', 'the star rewrites know different star forms: {} vs {}'.format(sorted(t1), sorted(t2)))
+        tmpl = '] + {} + [' if port == 'py' else ']).concat({}).concat(['
+        want1 = {'*': tmpl.format('star_fields'), 'a.*': tmpl.format('record_a'), 'b.*': tmpl.format('record_b')}
+        got1 = {k: v.strip() for k, v in t1.items()}
+        targets_ok = all(('star_fields', 'record_a', 'record_b')[i] in got1.get(k, '') for i, k in enumerate(('*', 'a.*', 'b.*')))
+        rep.decide(targets_ok, 'star targets', node1, '* -> star_fields, a.* -> record_a, b.* -> record_b', 'star forms expand to {} (must be star_fields, record_a, record_b)'.format(got1))
+        rep.decide({k: v.replace(' ', '') for k, v in got1.items()} == {k: v.replace(' ', '') for k, v in want1.items()}, 'star expansion form', node1, 'a star item closes the list literal, concatenates the record and reopens a literal: the result is a fresh list', 'star items are no longer spliced by concatenation into a fresh list (`{}`)'.format(got1.get('*')))
     core = '(\\*|a\\.\\*|b\\.\\*)'
     rep.decide(core in p1 and core in p2, 'star token', f1, 'same star token in both patterns', 'the star token differs between the record-side and header-side patterns')
     rep.decide(p1.endswith(' *(?=$|,)') and p2.endswith(' *(?=$|,)'), 'star right context', f1, 'a star item ends at a comma or the end', 'star right context changed')
-    # fresh list expansion on the record side: '] + X + [' / ']).concat(X).concat(['
-    from .pa import concat_parts
-    want = ('] +', '+ [') if port == 'py' else (']).concat(', ').concat([')
-    splice = None
-    for n in walk_no_nested(f1):
-        if isinstance(n, ast.BinOp) and isinstance(n.op, ast.Add) and not (isinstance(getattr(n, 'parent', None), ast.BinOp) and isinstance(n.parent.op, ast.Add)):
-            parts = concat_parts(n)
-            cs = [(i, x.value.strip()) for i, x in enumerate(parts) if isinstance(x, ast.Constant) and isinstance(x.value, str)]
-            if len(cs) >= 2 and cs[0][1] == want[0] and cs[-1][1] == want[1] and cs[-1][0] - cs[0][0] >= 2:
-                splice = n
-        if isinstance(n, ast.JoinedStr):
-            cs = [x.value.strip() for x in n.values if isinstance(x, ast.Constant)]
-            if len(cs) >= 2 and cs[0] == want[0] and cs[-1] == want[1]:
-                splice = n
-    rep.decide(splice is not None, 'star expansion form', splice if splice is not None else f1, 'a star item closes the list literal, concatenates the record and reopens a literal: the result is a fresh list', 'star items are no longer spliced by concatenation into a fresh list')
 
     def end_positions(fd):
         """assignments of a position derived from the end of a match: (node, skips one more character?)"""
